@@ -66,6 +66,23 @@ struct Outcome {
     wakeups_checked: u64,
 }
 
+/// Which of two wake flags belongs to the context of the latest poll.
+struct WokenLatest<'a> {
+    a: Arc<Flag>,
+    b: Arc<Flag>,
+    use_b: &'a std::cell::Cell<bool>,
+}
+
+impl WokenLatest<'_> {
+    fn woken(&self) -> bool {
+        if self.use_b.get() {
+            self.b.0.load(Ordering::Relaxed)
+        } else {
+            self.a.0.load(Ordering::Relaxed)
+        }
+    }
+}
+
 macro_rules! drive_state {
     ($modpath:path, $name:expr, $ops:expr) => {{
         use $modpath as nt;
@@ -74,8 +91,13 @@ macro_rules! drive_state {
         let mut states: Vec<nt::State<u64, u64>> = vec![nt::State::new(0u64)];
         struct Sub {
             stream: Option<nt::Stream<u64>>,
+            // the stream may be polled from different task contexts over its life (handed from
+            // one task to another): two wakers, used in turn; only the latest one has to fire
             flag: Arc<Flag>,
             waker: Waker,
+            flag2: Arc<Flag>,
+            waker2: Waker,
+            polls: u64,
             last_pending: bool,
         }
         let mut subs: Vec<Sub> = Vec::new();
@@ -92,7 +114,11 @@ macro_rules! drive_state {
             let s = &mut subs[i];
             let Some(stream) = s.stream.as_mut() else { return false };
             s.flag.0.store(false, Ordering::Relaxed);
-            let mut cx = Context::from_waker(&s.waker);
+            s.flag2.0.store(false, Ordering::Relaxed);
+            // contexts change every third poll: A A A B B B A ...
+            s.polls += 1;
+            let second = (s.polls / 3) % 2 == 1;
+            let mut cx = Context::from_waker(if second { &s.waker2 } else { &s.waker });
             match Pin::new(stream).poll_next(&mut cx) {
                 Poll::Pending => {
                     s.last_pending = true;
@@ -171,8 +197,10 @@ macro_rules! drive_state {
                     for (i, s) in subs.iter().enumerate() {
                         if s.stream.is_some() && s.last_pending {
                             wakeups_checked += 1;
-                            if !s.flag.0.load(Ordering::Relaxed) && fail.is_none() {
-                                fail = Some(("C20/lost-wakeup".into(), format!("{name}: subscriber {i} was pending and set({v}) did not wake it")));
+                            let second = (s.polls / 3) % 2 == 1;
+                            let woken = if second { s.flag2.0.load(Ordering::Relaxed) } else { s.flag.0.load(Ordering::Relaxed) };
+                            if !woken && fail.is_none() {
+                                fail = Some(("C20/lost-wakeup".into(), format!("{name}: subscriber {i} was pending and set({v}) did not wake the task that polled it last")));
                             }
                         }
                     }
@@ -183,8 +211,10 @@ macro_rules! drive_state {
                     }
                     let flag = Arc::new(Flag(AtomicBool::new(false)));
                     let waker = Waker::from(flag.clone());
+                    let flag2 = Arc::new(Flag(AtomicBool::new(false)));
+                    let waker2 = Waker::from(flag2.clone());
                     let st = states.last().unwrap().stream();
-                    subs.push(Sub { stream: Some(st), flag, waker, last_pending: false });
+                    subs.push(Sub { stream: Some(st), flag, waker, flag2, waker2, polls: 0, last_pending: false });
                     logs.push(SubLog { created_after_sets: sets.len(), seen: vec![], dropped: false });
                 }
                 Op::Poll(i) => {
@@ -260,15 +290,23 @@ macro_rules! drive_once {
         let ops: &[u32] = $ops;
         let (once, mut stream) = nt::Once::<u64>::new();
         let mut once = Some(once);
-        let flag = Arc::new(Flag(AtomicBool::new(false)));
-        let waker = Waker::from(flag.clone());
+        // the one-shot stream is handed from task to task: every poll comes from the other context,
+        // and only the context of the latest poll has to be woken
+        let flag_a = Arc::new(Flag(AtomicBool::new(false)));
+        let waker_a = Waker::from(flag_a.clone());
+        let flag_b = Arc::new(Flag(AtomicBool::new(false)));
+        let waker_b = Waker::from(flag_b.clone());
+        let use_b = std::cell::Cell::new(false);
+        let flag = WokenLatest { a: flag_a.clone(), b: flag_b.clone(), use_b: &use_b };
         let mut seen: Vec<Seen> = Vec::new();
         let mut fail: Option<(String, String)> = None;
         let mut notified = false;
         let mut last_pending = false;
         let mut poll = |stream: &mut nt::Stream<u64>, seen: &mut Vec<Seen>, last_pending: &mut bool| {
-            flag.0.store(false, Ordering::Relaxed);
-            let mut cx = Context::from_waker(&waker);
+            flag_a.0.store(false, Ordering::Relaxed);
+            flag_b.0.store(false, Ordering::Relaxed);
+            use_b.set(!use_b.get());
+            let mut cx = Context::from_waker(if use_b.get() { &waker_b } else { &waker_a });
             match Pin::new(stream).poll_next(&mut cx) {
                 Poll::Pending => *last_pending = true,
                 Poll::Ready(None) => {
@@ -288,13 +326,13 @@ macro_rules! drive_once {
                     if let Some(o) = once.take() {
                         o.notify(42u64);
                         notified = true;
-                        if last_pending && !flag.0.load(Ordering::Relaxed) && fail.is_none() {
-                            fail = Some(("C20/lost-wakeup".into(), format!("{name}: one-shot stream was pending and notify did not wake it")));
+                        if last_pending && !flag.woken() && fail.is_none() {
+                            fail = Some(("C20/lost-wakeup".into(), format!("{name}: one-shot stream was pending and notify did not wake the task that polled it last")));
                         }
                     }
                 }
                 _ => {
-                    if once.take().is_some() && last_pending && !flag.0.load(Ordering::Relaxed) && fail.is_none() {
+                    if once.take().is_some() && last_pending && !flag.woken() && fail.is_none() {
                         fail = Some(("C20/lost-wakeup".into(), format!("{name}: one-shot stream was pending and dropping the notifier did not wake it")));
                     }
                 }
